@@ -1,5 +1,14 @@
 open Model
-let rec nat_of_int n = if n <= 0 then O else S (nat_of_int (n - 1))
+(* unary numerals, memoised and shared (value tags run into the thousands; one numeral per token would dominate the run time) *)
+let nat_memo : (int, nat) Hashtbl.t = Hashtbl.create 1024
+let nat_of_int n =
+  let rec up k acc = if k > n then acc else (let v = S acc in Hashtbl.replace nat_memo k v; up (k + 1) v) in
+  if n <= 0 then O else
+  match Hashtbl.find_opt nat_memo n with
+  | Some v -> v
+  | None ->
+      let rec base k = if k <= 0 then (0, O) else (match Hashtbl.find_opt nat_memo k with Some v -> (k, v) | None -> base (k - 1)) in
+      let (k0, v0) = base (n - 1) in up (k0 + 1) v0
 let rec int_of_nat = function O -> 0 | S n -> 1 + int_of_nat n
 let split c s = String.split_on_char c s
 let num s = nat_of_int (int_of_string (String.sub s 1 (String.length s - 1)))
